@@ -129,6 +129,8 @@ def cases(draw, kinds=tuple(KINDS)):
     if draw(st.booleans()):
         # the result is later recomputed (forced) with another value of the same domain and stored over the first
         case['second'] = encode_case(kind, draw(KINDS[kind]))
+    if kind in ('generator', 'list_numpy'):
+        case['interrupt_after'] = draw(st.integers(0, 5))
     return case
 
 
@@ -330,8 +332,59 @@ def eval_case(case, rec):
                     got2.append('<<mutated by the first loader>>')
                 elif isinstance(got2, dict):
                     got2['<<mutated by the first loader>>'] = 1
+                elif kind == 'numpy' and got2.ndim >= 1 and got2.size > 1 and got2.flags.writeable:
+                    import numpy as _np
+                    _np.copyto(got2, _np.flip(got2).copy())   # in place: a file-backed (memory-mapped) value would write through
+                elif kind == 'list_numpy' and isinstance(got2, list):
+                    got2.reverse()
             except Exception:
                 pass
+        # a load that is interrupted part-way (Ctrl-C while a long list is being read), then the SAME task object is asked
+        # again: it may fail, or load the whole value - it must not hand out the part that had been read
+        if kind in ('generator', 'list_numpy') and isinstance(want, list) and len(want) >= 2:
+            import numpy as _np
+            import taskchain.data as _tcdata
+            stop_after = 1 + case.get('interrupt_after', 0) % (len(want) - 1)
+            calls = {'n': 0}
+            real_iter, real_load = _tcdata.iter_json_file, _np.load
+
+            def iter_then_interrupt(path, *a, **kw):
+                for item in real_iter(path, *a, **kw):
+                    if calls['n'] >= stop_after:
+                        raise KeyboardInterrupt('injected while loading')
+                    calls['n'] += 1
+                    yield item
+
+            def load_then_interrupt(*a, **kw):
+                if calls['n'] >= stop_after:
+                    raise KeyboardInterrupt('injected while loading')
+                calls['n'] += 1
+                return real_load(*a, **kw)
+
+            with hyp.quiet_output():
+                t3 = chain()['rt_' + kind]
+            _tcdata.iter_json_file, _np.load = iter_then_interrupt, load_then_interrupt
+            interrupted = False
+            try:
+                with hyp.quiet_output():
+                    _ = t3.value
+            except KeyboardInterrupt:
+                interrupted = True
+            except Exception:
+                pass
+            finally:
+                _tcdata.iter_json_file, _np.load = real_iter, real_load
+            if interrupted:
+                try:
+                    with hyp.quiet_output():
+                        got3 = observe(kind, t3.value)
+                except Exception:
+                    rec.cls('interrupted-load:retry-raised')
+                else:
+                    d = same(kind, got3, want)
+                    if d:
+                        raise Violation('value-after-interrupted-load-differs', dict(info, diff=d, read_before_interrupt=stop_after))
+                    rec.cls('interrupted-load:retry-loaded-all')
         after = tree_digest(tmp)
         if before != after:
             changed = sorted(set(before.items()) ^ set(after.items()))[:4]
